@@ -484,6 +484,10 @@ class Ref:
             names = [x for x, _ in vs]
             for (variant, binds, guard, body) in n.arms:
                 if variant == "_":
+                    if guard is not None:
+                        g = self.ev(guard, env, depth)
+                        if not self.truth(g, "guard"):
+                            continue
                     return self.ev(body, env, depth)
                 i = names.index(variant)
                 if not self.truth(self.tag_is(v, i), f"match {variant}"):
